@@ -145,6 +145,25 @@ Theorem C02_by_one_is_no_by : forall (t : cterm R) j row, term_by t = Some j -> 
 Proof. exact block_at_by_one. Qed.
 Print Assumptions C02_by_one_is_no_by.
 
+(* user-supplied meshes: partial_dependence(term, X=<tuple of mesh arrays>, meshgrid=True) evaluates on _flatten_mesh(X): one
+   row per mesh point (C order) holding the point's coordinates -- as real numbers, whatever the arrays' dtype -- in the
+   marginals' feature columns, by-column 1, zeros elsewhere; the default mesh grid is the instance with the linspace axes *)
+Theorem C02_user_mesh : forall m (t : cterm R) axes,
+  length (user_mesh_grid Rfops m t axes) = length (mesh axes) /\
+  (forall j, term_by t = Some j -> (j < m)%nat -> Forall (fun row => nth j row 0 = 1) (user_mesh_grid Rfops m t axes)) /\
+  (forall c, ~ In c (map simple_feature (term_marginals t)) -> term_by t <> Some c ->
+     Forall (fun row => nth c row 0 = 0) (user_mesh_grid Rfops m t axes)) /\
+  (NoDup (map simple_feature (term_marginals t)) -> Forall (fun s => (simple_feature s < m)%nat) (term_marginals t) ->
+   (forall j, term_by t = Some j -> ~ In j (map simple_feature (term_marginals t))) -> length axes = length (term_marginals t) ->
+   forall r i, (r < length (mesh axes))%nat -> (i < length (term_marginals t))%nat ->
+     nth (simple_feature (nth i (term_marginals t) (SLinear O))) (nth r (user_mesh_grid Rfops m t axes) []) 0 = nth i (nth r (mesh axes) []) 0).
+Proof. exact user_mesh_rows. Qed.
+Print Assumptions C02_user_mesh.
+Theorem C02_default_mesh_is_user_mesh : forall lin m n (t : cterm R),
+  mesh_grid Rfops lin m n t = user_mesh_grid Rfops m t (map (axis Rfops lin n) (term_marginals t)).
+Proof. exact mesh_grid_is_user_mesh. Qed.
+Print Assumptions C02_default_mesh_is_user_mesh.
+
 (* the rational instance evaluated by the correspondence check denotes the real instance *)
 Theorem C02_model_transfer : forall (ts : list (cterm Q)) (beta row : list Q) i lin m n,
   lp Rfops (map cterm_Q2R ts) (map Q2R beta) (map Q2R row) = option_map Q2R (lp Qfops ts beta row) /\
